@@ -71,6 +71,11 @@ class C05(Plugin):
                 out.append({"k": 0, "reads": reads, "cs": k, "ops": [[0], [3], [0], [3], [0], [2, 1], [3], [0], [0], [0], [3], [4]]})
         out += [{"k": 2, "src": s} for s in ["<p><!DOx>bc<", "<!-", "a\r\nb\r\r\n<p>\r", "<p>ab</p>\x01<b>\x01",
                                             "<!DOCTYPE html>\r\n<title>x</title>&notin;</script", "x\ud83d"]]
+        # documents that declare ANOTHER encoding than the (certain) one they are delivered in
+        out += [{"k": 2, "src": s} for s in ["<meta charset=windows-1252><p>caf\xe9 \u20ac", "<meta charset=utf-8><p>\xe9\xe8",
+                                            "<meta http-equiv=content-type content='text/html; charset=koi8-r'><p>\xe9t\xe9</",
+                                            "<!-- " + "x" * 1100 + " --><meta charset=shift_jis><p>\xe9 &",
+                                            "<meta charset=utf-16><p>\xe9<", "<p>\xe9<meta charset=gb18030>\xe8"]]
         return out
 
     def known_witnesses(self):
